@@ -38,7 +38,7 @@ func compactCallback(c *Ctx) (*ssa.Function, *ssa.Function, *ssa.Call) {
 }
 
 func c15R1(c *Ctx, id string) {
-	c.rule(id, "sequence-carried-over", 5, func() {
+	c.rule(id, "sequence-carried-over", 6, func() {
 		_, cb, _ := compactCallback(c)
 		var seqParam *ssa.Parameter
 		for _, p := range cb.Params {
@@ -47,47 +47,125 @@ func c15R1(c *Ctx, id string) {
 			}
 		}
 		n := 0
-		for _, callee := range []string{"bbolt.(*Tx).CreateBucket", "bbolt.(*Bucket).CreateBucket", "bbolt.(*Tx).CreateBucketIfNotExists", "bbolt.(*Bucket).CreateBucketIfNotExists"} {
-			for _, call := range plainCallsIn(cb, callee) {
-				n++
-				var bkt ssa.Value
-				for _, r := range *call.Referrers() {
-					if ex, ok := r.(*ssa.Extract); ok && ex.Index == 0 {
-						bkt = ex
-					}
-				}
-				var okSucc []*ssa.BasicBlock
-				for _, t := range errTests(call) {
-					okSucc = append(okSucc, t.Nil)
-				}
-				// the SetSequence on that bucket with the callback's seq
-				var sets []ssa.Instruction
-				for _, s := range plainCallsIn(cb, "bbolt.(*Bucket).SetSequence") {
-					if s.Call.Args[0] == bkt && s.Call.Args[1] == ssa.Value(seqParam) {
-						sets = append(sets, s)
-					}
-				}
-				isSet := func(in ssa.Instruction) bool {
-					for _, s := range sets {
-						if s == in {
-							return true
-						}
-					}
-					return false
-				}
-				bad := ""
-				if len(sets) == 0 {
-					bad = "no SetSequence(seq) on the bucket just created"
-				} else {
-					for in := range reach(nil, okSucc, isSet, nil) {
-						if ret, isR := in.(*ssa.Return); isR && classifyReturn(ret) != retError {
-							bad = "the callback can return success at " + c.P.Position(ret.Pos()) + " without SetSequence"
-						}
-					}
-				}
-				c.check(fmt.Sprintf("%s:Compact-callback:%s#%d", id, callee, n), cb, call.Pos(), "the bucket re-created in the destination gets SetSequence(seq) (seq = the callback's parameter) on every success path", bad == "" && len(okSucc) > 0, bad)
+		createNames := map[string]bool{"bbolt.(*Tx).CreateBucket": true, "bbolt.(*Bucket).CreateBucket": true, "bbolt.(*Tx).CreateBucketIfNotExists": true, "bbolt.(*Bucket).CreateBucketIfNotExists": true}
+		isBoundCreate := func(v ssa.Value) bool {
+			mc, ok := v.(*ssa.MakeClosure)
+			if !ok {
+				return false
 			}
+			f, ok := mc.Fn.(*ssa.Function)
+			return ok && (strings.HasSuffix(f.Name(), "CreateBucket$bound") || strings.HasSuffix(f.Name(), "CreateBucketIfNotExists$bound"))
 		}
+		// createThenSet: in fn, after `call` created a bucket, every success path sets its sequence to seqVal
+		createThenSet := func(fn *ssa.Function, call *ssa.Call, seqVal ssa.Value) string {
+			var bkt ssa.Value
+			for _, r := range *call.Referrers() {
+				if ex, ok := r.(*ssa.Extract); ok && ex.Index == 0 {
+					bkt = ex
+				}
+			}
+			var okSucc []*ssa.BasicBlock
+			for _, t := range errTests(call) {
+				okSucc = append(okSucc, t.Nil)
+			}
+			if len(okSucc) == 0 {
+				return "the error of the bucket creation is not tested"
+			}
+			var sets []ssa.Instruction
+			for _, s := range plainCallsIn(fn, "bbolt.(*Bucket).SetSequence") {
+				if s.Call.Args[0] == bkt && s.Call.Args[1] == seqVal {
+					sets = append(sets, s)
+				}
+			}
+			if len(sets) == 0 {
+				return "no SetSequence(seq) on the bucket just created"
+			}
+			isSet := func(in ssa.Instruction) bool {
+				for _, s := range sets {
+					if s == in {
+						return true
+					}
+				}
+				return false
+			}
+			for in := range reach(nil, okSucc, isSet, nil) {
+				if ret, isR := in.(*ssa.Return); isR && classifyReturn(ret) != retError {
+					return "success can be returned at " + c.P.Position(ret.Pos()) + " without SetSequence"
+				}
+			}
+			return ""
+		}
+		eachInstr(cb, func(in ssa.Instruction) {
+			call, ok := in.(*ssa.Call)
+			if !ok {
+				return
+			}
+			name := calleeOf(call).Name()
+			if createNames[name] {
+				n++
+				bad := createThenSet(cb, call, seqParam)
+				c.check(fmt.Sprintf("%s:Compact-callback:%s#%d", id, name, n), cb, call.Pos(), "the bucket re-created in the destination gets SetSequence(seq) (seq = the callback's parameter) on every success path", bad == "", bad)
+				return
+			}
+			// a package-local helper that creates the bucket on the callback's behalf: it receives the bound
+			// CreateBucket method (or the parent) and the sequence
+			h := calleeOf(call).Static
+			if h == nil || fnPkg(h) == nil || fnPkg(h).Path() != rootPkg || len(h.Blocks) == 0 || createNames[shortFn(h)] {
+				return
+			}
+			var creates []*ssa.Call
+			eachInstr(h, func(i2 ssa.Instruction) {
+				c2, ok := i2.(*ssa.Call)
+				if !ok {
+					return
+				}
+				if createNames[calleeOf(c2).Name()] {
+					creates = append(creates, c2)
+					return
+				}
+				if p, isP := resolveCell(c2.Call.Value).(*ssa.Parameter); isP && isFuncTyped(p) {
+					for k, hp := range h.Params {
+						if hp == p && k < len(call.Call.Args) && isBoundCreate(call.Call.Args[k]) {
+							creates = append(creates, c2)
+						}
+					}
+				}
+			})
+			if len(creates) == 0 {
+				return
+			}
+			n++
+			bad := ""
+			// the helper's uint64 parameter that receives the callback's seq
+			var hseq ssa.Value
+			for k, hp := range h.Params {
+				if k < len(call.Call.Args) && call.Call.Args[k] == ssa.Value(seqParam) {
+					hseq = hp
+				}
+			}
+			if hseq == nil {
+				bad = "the helper " + shortFn(h) + " is not given the callback's seq"
+			}
+			for _, cr := range creates {
+				if bad == "" {
+					bad = createThenSet(h, cr, hseq)
+				}
+			}
+			// the helper's verdict is the callback's: its error is returned or tested
+			if bad == "" && len(errTests(call)) == 0 {
+				returned := false
+				for _, r := range *call.Referrers() {
+					if _, isR := r.(*ssa.Return); isR {
+						returned = true
+					}
+				}
+				if !returned {
+					bad = "the result of " + shortFn(h) + " is neither returned nor tested"
+				}
+			}
+			c.check(fmt.Sprintf("%s:Compact-callback:via-%s#%d", id, shortFn(h), n), cb, call.Pos(), "the bucket re-created in the destination (through a helper) gets SetSequence(seq) (seq = the callback's parameter) on every success path", bad == "", bad)
+		})
+		c.check(id+":Compact-callback:both-arms", cb, cb.Pos(), "the callback re-creates buckets in both arms (top-level and nested)", n >= 2, fmt.Sprintf("%d creation sites", n))
 		// walk / walkBucket: seq is the Sequence() of the bucket reported
 		k := 0
 		for _, fn := range c.P.FnsIn(rootPkg) {
